@@ -55,6 +55,9 @@ class Person:
 
 def hit(i, flag, val, name, person, data, cnt):
     x = i
+    # a comprehension whose loop variable is named like a module global: inside the comprehension only - at the
+    # tracepoint line (and everywhere else in the function) the name is the global
+    _gl = [G_LIST for G_LIST in (0,)]
     return x
 
 def tmain(tid, n, out):
